@@ -107,17 +107,21 @@ def write_replay(pid, obj):
 
 
 def validate_evidence(ev):
+    """validate against the evidence schema with the tooling venv's jsonschema when present"""
+    req = ["property_id", "tier", "seed", "level", "coverage", "wall_s"]
+    miss = [k for k in req if k not in ev]
+    if miss:
+        return "missing " + ",".join(miss)
+    code = ("import json,sys,jsonschema;"
+            "jsonschema.validate(json.load(sys.stdin), json.load(open('/root/.vp/EVIDENCE.schema.json')))")
     try:
-        import jsonschema
-        schema = json.load(open("/root/.vp/EVIDENCE.schema.json"))
-        jsonschema.validate(ev, schema)
-        return None
-    except ImportError:
-        req = ["property_id", "tier", "seed", "level", "coverage", "wall_s"]
-        miss = [k for k in req if k not in ev]
-        return "missing " + ",".join(miss) if miss else None
-    except Exception as e:
-        return str(e)[:500]
+        r = subprocess.run(["python3-vt", "-c", code], input=json.dumps(ev, default=str),
+                           capture_output=True, text=True, timeout=60)
+        if r.returncode != 0 and "jsonschema" in r.stderr and "ValidationError" in r.stderr:
+            return r.stderr[-500:]
+    except Exception:
+        pass
+    return None
 
 
 def main(argv=None):
